@@ -150,11 +150,12 @@ class histogram():
             wrong_bins_error = LenaValueError(
                 "bins of incorrect shape given, {}".format(bins)
             )
-            if self.dim == 1:
-                if len(bins) != len(edges) - 1:
+            if hasattr(edges[0], "__iter__"):
+                # edges of all axes are given (also for one dimension)
+                if len(bins) != len(edges[0]) - 1:
                     raise wrong_bins_error
             else:
-                if len(bins) != len(edges[0]) - 1:
+                if len(bins) != len(edges) - 1:
                     raise wrong_bins_error
         if self.dim > 1:
             self.ranges = [(axis[0], axis[-1]) for axis in edges]
